@@ -125,7 +125,10 @@ Section Ideal.
         | Some x => match i_phase x with PMsg => imsgs st x ms invalid | _ => (st, []) end
         end
     | IEof c => match ifind (i_conns st) c with None => (st, []) | Some x => idrop st x end
-    | ITick d => iexpire (mkISt (i_now st + d) (i_conns st) (i_core st))
+    | ITick d =>
+        let '(st1, o1) := iexpire (mkISt (i_now st + d) (i_conns st) (i_core st)) in
+        let '(k, o2) := o_tick P (i_core st1) d in
+        (mkISt (i_now st1) (i_conns st1) k, o1 ++ map OCore o2)
     end.
 
   Fixpoint irun (st : istate A S) (h : list ievent) : istate A S * list (out O) :=
